@@ -50,6 +50,15 @@ func (s spec) String() string {
 	return fmt.Sprintf("kind=%s layout=%s G=%d N=%d K=%d mode=%s pad=%d straddle=%v", s.Kind, s.Layout, s.G, s.N, s.K, s.Mode, s.Pad, s.Straddle)
 }
 
+// boom and boomArray are field values whose encoding panics (a nil dereference in user code).
+type boom struct{ p *int }
+
+func (b boom) MarshalJSON() ([]byte, error) { return []byte(strconv.Itoa(*b.p)), nil }
+
+type boomArray struct{ p *int }
+
+func (b boomArray) EncodeArray(enc log.Encoder) { enc.AppendInt64(int64(*b.p)) }
+
 var tagT = log.RegisterTag("_c20_t")
 var tagU = log.RegisterTag("_c20_u")
 
@@ -70,6 +79,10 @@ func TestC20_Child(t *testing.T) {
 		os.Exit(9)
 	}
 	ack := os.NewFile(3, "ack")
+	var handle *log.LoggerWrapper
+	if strings.HasPrefix(s.Kind, "rawhandle-") {
+		handle = log.GetLogger("c20h") // handles can only be requested before the first Refresh
+	}
 	m := map[string]string{"enableCaller": "false", "bufferCap": "10KB", "logger.l.tags": "_c20_t"}
 	switch s.Kind {
 	case "file":
@@ -98,6 +111,20 @@ func TestC20_Child(t *testing.T) {
 		}
 		m["logger.l.type"], m["logger.l.appenderRef.ref"] = "Logger", "a"
 		m["logger.u.type"], m["logger.u.tags"], m["logger.u.appenderRef.ref"] = "Logger", "_c20_u", "b"
+	case "rawhandle-file", "rawhandle-rolling", "rawhandle-console":
+		// bytes written through the io.Writer handle of a named logger, some of them without a
+		// trailing line break (fmt.Fprint, io.Copy): what Write has accepted is in the target
+		switch s.Kind {
+		case "rawhandle-file":
+			m["appender.a.type"], m["appender.a.fileDir"], m["appender.a.fileName"] = "File", s.Dir, "out.log"
+		case "rawhandle-rolling":
+			m["appender.a.type"], m["appender.a.fileDir"], m["appender.a.fileName"] = "RollingFile", s.Dir, "out.log"
+			m["appender.a.rotation"], m["appender.a.maxAge"] = "1s", "10"
+		default:
+			m["appender.a.type"] = "Console"
+		}
+		m["logger.l.type"], m["logger.l.appenderRef.ref"] = "Logger", "a"
+		m["logger.c20h.type"], m["logger.c20h.tags"], m["logger.c20h.appenderRef.ref"] = "Logger", "_c20_h", "a"
 	case "restarted-file", "restarted-rolling": // configured below: an appender value stopped and started again
 		m["appender.unused.type"] = "Discard"
 		m["logger.l.type"], m["logger.l.appenderRef.ref"] = "Logger", "unused"
@@ -123,6 +150,15 @@ func TestC20_Child(t *testing.T) {
 			tg = tagU
 		}
 		log.Info(context.Background(), tg, log.Int("g", g), log.Int("seq", i), log.String("pad", pad), log.Uint("crc", crc))
+	}
+	if handle != nil {
+		emit = func(g, i int, pad string, crc uint32) {
+			term := ";" // no line break at the end of this write
+			if (g+i)%3 == 0 {
+				term = "\n"
+			}
+			_, _ = fmt.Fprintf(handle, "g=%d||seq=%d||pad=%s||crc=%d%s", g, i, pad, crc, term)
+		}
 	}
 	if strings.HasPrefix(s.Kind, "restarted-") {
 		// the appender is used directly: started, used, stopped (a log file was rotated away by an
@@ -182,6 +218,23 @@ func TestC20_Child(t *testing.T) {
 			for i := 0; i < s.N || (s.Straddle && i < 50000 && time.Now().Before(until)); i++ {
 				pad := strings.Repeat(string(rune('a'+(g+i)%26)), (s.Pad*(i+1))%3000)
 				crc := crc32.ChecksumIEEE([]byte(strconv.Itoa(g) + "/" + strconv.Itoa(i) + "/" + pad))
+				if handle == nil && !s.Straddle && !strings.HasPrefix(s.Kind, "restarted-") && i%5 == 3 {
+					// a call whose field cannot be encoded (its MarshalJSON / EncodeArray panics): if the
+					// call returns all the same, it is a returned call like any other and its line is due
+					shadow := 1_000_000 + i
+					scrc := crc32.ChecksumIEEE([]byte(strconv.Itoa(g) + "/" + strconv.Itoa(shadow) + "/"))
+					var bad log.Field
+					if i%2 == 0 {
+						bad = log.Reflect("boom", boom{})
+					} else {
+						bad = log.Array("boom", boomArray{})
+					}
+					if p := vk.Catch(func() {
+						log.Info(context.Background(), tagT, bad, log.Int("g", g), log.Int("seq", shadow), log.String("pad", ""), log.Uint("crc", scrc))
+					}); p == nil {
+						_, _ = ack.Write([]byte(fmt.Sprintf("%d %d\n", g, shadow)))
+					}
+				}
 				emit(g, i, pad, crc)
 				if s.Straddle {
 					// the crash comes after the last call: the returned calls are reported together
@@ -290,7 +343,7 @@ func runCrashPoint(s spec) (err error, acked int) {
 	// read the target
 	var data []byte
 	switch s.Kind {
-	case "console", "consolelogger", "console+loggerlayout":
+	case "console", "consolelogger", "console+loggerlayout", "rawhandle-console":
 		data, _ = os.ReadFile(stdoutPath)
 	default:
 		ents, _ := os.ReadDir(s.Dir)
@@ -302,7 +355,7 @@ func runCrashPoint(s spec) (err error, acked int) {
 		}
 	}
 	present := map[ackT]int{}
-	for _, ln := range strings.Split(string(data), "\n") {
+	for _, ln := range strings.FieldsFunc(string(data), func(r rune) bool { return r == '\n' || r == ';' }) {
 		m := lineRe.FindStringSubmatch(ln)
 		if m == nil {
 			continue
@@ -334,7 +387,7 @@ func TestC20_CrashPoints(t *testing.T) {
 		for i := 0; i < B; i++ {
 			l := fmt.Sprintf("s%d", i)
 			s := spec{
-				Kind:   rapid.SampledFrom([]string{"file", "rolling", "console", "filelogger", "rollinglogger", "consolelogger", "file+loggerlayout", "rolling+loggerlayout", "console+loggerlayout", "rolling", "rollinglogger", "twofiles", "restarted-file", "restarted-rolling"}).Draw(t, l+"kind"),
+				Kind:   rapid.SampledFrom([]string{"file", "rolling", "console", "filelogger", "rollinglogger", "consolelogger", "file+loggerlayout", "rolling+loggerlayout", "console+loggerlayout", "rolling", "rollinglogger", "twofiles", "restarted-file", "restarted-rolling", "rawhandle-file", "rawhandle-rolling", "rawhandle-console"}).Draw(t, l+"kind"),
 				Layout: rapid.SampledFrom([]string{"TextLayout", "JSONLayout"}).Draw(t, l+"layout"),
 				G:      rapid.IntRange(1, 4).Draw(t, l+"G"),
 				N:      rapid.SampledFrom([]int{1, 5, 30, 200, 1500}).Draw(t, l+"N"),
